@@ -7,8 +7,10 @@ import (
 	"hash/fnv"
 	"os"
 	"path/filepath"
+	"runtime/metrics"
 	"sort"
 	"strconv"
+	"sync/atomic"
 	"testing"
 	"time"
 
@@ -297,6 +299,46 @@ func mix(seed uint64, parts ...string) uint64 {
 // HangError is returned (wrapped in the shard's exit) when a case hung.
 type hangAbort struct{ res *Result }
 
+// ---- memory watchdog ------------------------------------------------------------------
+//
+// A wrong length read from a file can make the code under test request
+// gigabytes (e.g. a slice sized by a garbage frequency). The Go runtime would
+// eventually kill the process without a verdict; the watchdog notices the blow-up
+// while the allocation is still being zeroed, reports the case that was running
+// as a violation (unshrunk) and ends the shard.
+
+var curCase atomic.Pointer[Case]
+
+// OnShardAbort is called by the watchdog with the stats to persist; it must not return.
+var OnShardAbort func(st *ShardStats)
+
+func startMemoryWatchdog(limit uint64, prop string, seed uint64, shard int, outDir string, st *ShardStats) {
+	sample := []metrics.Sample{{Name: "/memory/classes/total:bytes"}}
+	go func() {
+		for {
+			time.Sleep(50 * time.Millisecond)
+			metrics.Read(sample)
+			if sample[0].Value.Kind() != metrics.KindUint64 || sample[0].Value.Uint64() < limit {
+				continue
+			}
+			c := curCase.Load()
+			if c == nil || OnShardAbort == nil {
+				continue
+			}
+			fail := &Fail{Prop: prop, Oracle: "memory", Kind: "memory-blowup", Site: c.Scen,
+				Detail: fmt.Sprintf("while this case was executing the process grew to %d MiB (limit %d MiB): the code under test requested an absurd amount of memory, typically a slice sized by a wrong length or frequency", sample[0].Value.Uint64()>>20, limit>>20)}
+			rp := &Replay{Property: prop, Check: prop, Scenario: c.Scen, Seed: seed, Shard: shard, Case: c, Verdict: fail, Trace: "0", Minimal: false}
+			path := filepath.Join(outDir, fmt.Sprintf("%s-by%s-%s-%d-%d.json", prop, prop, c.Scen, seed, shard))
+			b, _ := json.MarshalIndent(rp, "", " ")
+			_ = os.MkdirAll(outDir, 0o755)
+			_ = os.WriteFile(path, b, 0o644)
+			st.Violation = append(st.Violation, path)
+			st.VioProps = append(st.VioProps, prop)
+			OnShardAbort(st)
+		}
+	}()
+}
+
 // RunShard executes one shard of a property's plan. It returns the stats and
 // whether a harness error occurred.
 func RunShard(prop, tier string, seed uint64, shard, shards int, plan []PlanItem, findings *Findings, outDir string, budget time.Duration) (*ShardStats, error) {
@@ -304,6 +346,11 @@ func RunShard(prop, tier string, seed uint64, shard, shards int, plan []PlanItem
 	start := time.Now()
 	st := &ShardStats{Prop: prop, Tier: tier, Shard: shard, Seed: seed, PerScen: map[string]*ScenStats{}, Known: map[string]int{}, Hashes: map[string][]uint64{}}
 	env := &Env{Prop: prop, Tier: tier}
+	limit := uint64(5) << 30
+	if RaceBuild {
+		limit = 12 << 30
+	}
+	startMemoryWatchdog(limit, prop, seed, shard, outDir, st)
 	for _, item := range plan {
 		sc := Scenarios[item.Scen]
 		if sc == nil {
@@ -344,7 +391,9 @@ func RunShard(prop, tier string, seed uint64, shard, shards int, plan []PlanItem
 			}
 			c := sc.Gen(t, prop)
 			c.Scen = sc.Name
+			curCase.Store(c)
 			res, err := Execute(c, env)
+			curCase.Store(nil)
 			if err != nil {
 				harnessErr = err
 				return
